@@ -164,16 +164,48 @@ def fcidump(ctx):
     ctx.ob("KEYS-2", "_prep_afqmc: (n_up, n_dn) = ((N + |ms|)//2, (N - |ms|)//2)", split_ok, "", rd)
 
 
+def _savez_sites(p, pa) -> List[Tuple[str, Set[str], int, str]]:
+    """(file name, keys, line, description) of every np.savez call in prep_afqmc, from the value graph: keys given as
+    keywords or as **dict; a dict chosen between alternatives (UCCSD / CCSD branch) gives one entry per alternative"""
+    from ..symex import Evaluator, call_parts, func_name, strip_wrappers
+    ev = Evaluator(p)
+    ev.eval_function(pa)
+    out = []
+    seen = set()
+    for e in ev.events:
+        if e.kind != "call" or not hasattr(e.data, "op") or e.data.op != "call" or \
+                not (func_name(e.data) or "").endswith("savez") or e.data.uid in seen:
+            continue
+        seen.add(e.data.uid)
+        _, pos, kws = call_parts(e.data)
+        if not pos or pos[0].op != "const":
+            continue
+        fn = pos[0].args[0]
+        alts = [dict(kws)]
+
+        def arms(d):
+            d = strip_wrappers(d)
+            if d.op == "dict":
+                return [{d.args[j].args[0]: d.args[j + 1] for j in range(0, len(d.args) - 1, 2)
+                         if d.args[j].op == "const" and isinstance(d.args[j].args[0], str)}]
+            if d.op in ("phi", "ifexp"):
+                return arms(d.args[1]) + arms(d.args[2])
+            return []
+        for a_ in e.data.args[1:]:
+            if a_.op == "dstar":
+                got = arms(a_.args[0])
+                if got:
+                    alts = [dict(base, **g) for base in alts for g in got]
+        for al in alts:
+            out.append((fn, set(al), e.line, ",".join(sorted(al))))
+    return out
+
+
 def npz_files(ctx):
     p = ctx.p
     pa = p.func("pyscf_interface.prep_afqmc")
     rd = p.func("mpi_jax._prep_afqmc")
-    saves: List[Tuple[str, Set[str], int, str]] = []
-    for nd in ast.walk(pa.node):
-        if isinstance(nd, ast.Call) and (dotted(nd.func) or "").endswith("savez") and nd.args:
-            fn = _str_const(nd.args[0])
-            saves.append((fn, {k.arg for k in nd.keywords}, nd.lineno,
-                          ",".join(f"{k.arg}={ast.unparse(k.value)}" for k in nd.keywords)))
+    saves: List[Tuple[str, Set[str], int, str]] = _savez_sites(p, pa)
     mo_saves = [s for s in saves if s[0] == "mo_coeff.npz"]
     ctx.ob("KEYS-2", "mo_coeff.npz: every writer site stores the array under 'mo_coeff'", len(mo_saves) >= 2 and
            all(s[1] == {"mo_coeff"} for s in mo_saves), f"{[(s[2], sorted(s[1])) for s in mo_saves]}", pa)
@@ -287,7 +319,22 @@ def amplitude_provenance(ctx):
         _, pos, kws = call_parts(e.data)
         if not pos or not (pos[0].op == "const" and pos[0].args[0] == "amplitudes.npz"):
             continue
-        for k, v in kws.items():
+        items = dict(kws)
+
+        def dict_items(d):
+            """entries of **d where d is a dict display or a choice between dict displays"""
+            d = strip_wrappers(d)
+            if d.op == "dict":
+                for j in range(0, len(d.args) - 1, 2):
+                    if d.args[j].op == "const" and isinstance(d.args[j].args[0], str):
+                        items.setdefault(d.args[j].args[0], d.args[j + 1])
+            elif d.op in ("phi", "ifexp"):
+                dict_items(d.args[1])
+                dict_items(d.args[2])
+        for a_ in e.data.args[1:]:
+            if a_.op == "dstar":
+                dict_items(a_.args[0])
+        for k, v in items.items():
             seen_keys.add(k)
             uses: Dict[str, set] = {}
             for x in subterms(v):
@@ -380,20 +427,24 @@ def trial_dispatch(ctx):
         ctx.ob("KEYS-1", f"_prep_afqmc: wave_data assembled for '{kind}' has every key that class reads",
                not missing, f"class reads {sorted(need)}; branch provides {sorted(written)}" +
                (f"; missing {missing}" if missing else ""), rd)
-    # walker types
-    src = ast.unparse(rd.node)
+    # walker types: the propagator class the returned `prop` is an instance of when options['walker_type'] has the given
+    # value, read off the value graph (the choice may be an if-chain, a class variable, a table ...)
+    from ..symex import Evaluator as _Ev, specialise, subterms as _sub, const as _const, getitem as _gi
+    _ev = _Ev(p)
+    _R = _ev.result(_ev.eval_function(rd))
+    prop_t = _gi(_R, _const(2)) if _R is not None else None
+    opts_t = _gi(_R, _const(7)) if _R is not None else None
+    wt_t = _gi(opts_t, _const("walker_type")) if opts_t is not None else None
     for wt, cls in (("rhf", "propagator_restricted"), ("uhf", "propagator_unrestricted")):
-        found = False
-        for nd in ast.walk(rd.node):
-            if isinstance(nd, ast.If) and "options['walker_type']" in ast.unparse(nd.test) and \
-                    f"'{wt}'" in ast.unparse(nd.test):
-                for body_st in nd.body:
-                    for st in ast.walk(body_st):
-                        if isinstance(st, ast.Assign) and isinstance(st.targets[0], ast.Name) and \
-                                st.targets[0].id == prop_name and isinstance(st.value, ast.Call) and \
-                                dotted(st.value.func) == f"propagation.{cls}":
-                            found = True
-        ctx.ob("KEYS-1", f"_prep_afqmc: walker_type '{wt}' binds prop = propagation.{cls}", found, "", rd)
+        if prop_t is None or wt_t is None or (wt_t.op == "getitem" and wt_t.args[0] is opts_t):
+            ctx.rep.note("_prep_afqmc: options['walker_type'] / the returned propagator not identified; walker-type binding "
+                         "rule not applicable")
+            break
+        sp = specialise(prop_t, {wt_t: _const(wt)})
+        made = sorted({x.args[0].args[0] for x in _sub(sp) if x.op == "call" and x.args[0].op == "cls"
+                       and x.args[0].args[0].startswith("propagation.")})
+        ctx.ob("KEYS-1", f"_prep_afqmc: walker_type '{wt}' binds prop = propagation.{cls}", made == [f"propagation.{cls}"],
+               f"constructs {made}", rd)
 
 
 def option_defaults_of(rd) -> Set[str]:
